@@ -11,6 +11,18 @@ pub fn own_panics_only() {
     vcore::adopt_threads(vec![std::thread::current().id()]);
 }
 
+/// Cap the address space of this process. A defect that makes the code under
+/// test allocate without bound (e.g. a simplification that never terminates
+/// and keeps appending output points) then aborts on a failed allocation
+/// within seconds - a signal the engine attributes to the running case -
+/// instead of exhausting the machine's memory until the watchdog fires.
+pub fn limit_address_space(bytes: u64) {
+    let lim = libc::rlimit { rlim_cur: bytes as libc::rlim_t, rlim_max: bytes as libc::rlim_t };
+    unsafe {
+        libc::setrlimit(libc::RLIMIT_AS, &lim);
+    }
+}
+
 pub mod geom {
     /// A point in f64. f32 inputs convert exactly.
     #[derive(Clone, Copy, Debug, PartialEq)]
